@@ -9,9 +9,18 @@ RULE = ("random well-formed textgrids as in C01, labels and tier names additiona
         "('item [2]:', 'intervals [1]:', '\"IntervalTier\"', 'text = \"x\"', 'ooTextFile short', ...) x includeBlankSpaces x "
         "optional minTimestamp/maxTimestamp overrides at / beyond the data span; each textgrid is written in all four "
         "formats and every text is decoded by the independent reader of harness/ioops.py (free-standing-token rule of "
-        "Praat's manual; README JSON schemas). non-trivial = the textgrid has at least one entry")
+        "Praat's manual; README JSON schemas); every textgrid additionally exercises the Lean JSON model: both JSON texts byte for "
+        "byte (emitjson; now and then with Python ints as overrides, which json.dumps writes as ints and _fillInBlanks carries into "
+        "the fillers), what parseTextgridStr reads from them, from a damaged copy and from an independently written document with "
+        "the same content (parsejson), and unit cases for json.dumps of strings, the JSON number grammar and json.loads of random "
+        "documents. non-trivial = the textgrid has at least one entry")
 TRUSTED = ["oracle = the independent spec reader spec_decode/json_decode in harness/ioops.py (validated against all Praat- and "
-           "ELAN-written fixtures of the repository, see DESIGN §4 C02); CPython json"]
+           "ELAN-written fixtures of the repository, see DESIGN §4 C02)",
+           "CPython's json module (json.dumps / json.loads) is trusted as a component and compared on every case with its Lean model "
+           "(lean/PraatModel/Json.lean): the written JSON text byte for byte with Json.render (op emitjson), the reader with Json.parse + "
+           "tgOfJson (ops parsejson, u_jsonstr, u_jsonnum, u_jsondoc); hypothesis JsonNum of C02.decode_json_full / decode_json_simple "
+           "(float.__repr__ of a time is a number of the JSON grammar) is sampled on every time of every case (oracle clause 'jsonnum'); "
+           "distinct tier names (hypothesis of decode_json_simple) are the Textgrid class's own invariant"]
 ASSUMPTIONS = ["labels and names contain no carriage return; intervals and gaps >= 1e-6 long"]
 
 case_json = lambda c: c
@@ -79,6 +88,10 @@ def oracle(c, r):
     if c["op"] in iomodel.MODEL_OPS:
         return None          # model-correspondence case: compared with the Lean model only
     want = expected(c)
+    import props.C01 as C01
+    for x in C01.times_of(want):   # sampled hypothesis of C02.decode_json_full / decode_json_simple: json.dumps writes JSON numerals
+        if not C01.jsonnum_ok(iomodel.numeral(x)):
+            return Failure({"op": "write", "clause": "jsonnum"}, f"json.dumps({x!r}) = {iomodel.numeral(x)!r} is not a JSON number")
     decoded = {}
     for fmt in ioops.FORMATS:
         sig = {"op": "write", "fmt": fmt}
@@ -145,6 +158,14 @@ def corpus():
     q = {"lo": 0.0, "hi": 5.0, "tiers": [{"k": "P", "name": "p", "es": [[1.0, 'say "ah"\nrising'], [2.0, '"\n"']], "lo": 0.0, "hi": 5.0},
                                        {"k": "I", "name": "i", "es": [[1.0, 2.9999999999999996, 'a"\nb']], "lo": 0.0, "hi": 5.0}]}
     yield {"op": "write", "tg": q, "blanks": True, "stream": "plain"}
+    import props.C01 as C01
+    for c in C01.json_corpus():
+        if c["op"] == "roundtrip":
+            if c["blanks"]:
+                yield {"op": "write", "tg": c["tg"], "blanks": True, "stream": "plain"}
+                yield {"op": "write", "tg": c["tg"], "blanks": False, "stream": "plain", "max": 7.5}
+        else:
+            yield c
 
 
 def gen(rnd, tier):
@@ -154,6 +175,22 @@ def gen(rnd, tier):
 
 
 def derived(c, rnd):
+    import props.C01 as C01
+    yield from C01.json_derived(c["tg"], c["blanks"], c.get("min"), c.get("max"), rnd.random() < 0.5, rnd)
+    if rnd.random() < 0.15:       # Python ints as overrides: written as ints, and carried into the fillers
+        top = int(max([c["tg"]["hi"]] + [x for t in c["tg"]["tiers"] for e in t["es"] for x in e[:-1]])) + rnd.choice([1, 2, 10])
+        if top < 2 ** 40:
+            for fmt in ("json", "textgrid_json"):
+                yield {"op": "emitjson", "tg": c["tg"], "fmt": fmt, "blanks": c["blanks"], "min": rnd.choice([None, 0]), "max": top, "minlen": 1e-8}
+    k = rnd.random()
+    if k < 0.1:
+        yield {"op": "u_jsonstr", "s": ioops.rand_jstring(rnd)}
+    elif k < 0.2:
+        yield {"op": "u_jsonnum", "s": ioops.rand_numword(rnd)}
+    elif k < 0.35:
+        text = ioops.jdoc_variant(ioops.rand_jdoc(rnd), rnd)
+        yield {"op": "u_jsondoc", "s": text}
+        yield {"op": "u_jsondoc", "s": ioops.json_break(text, rnd)}
     for fmt in ("short_textgrid", "long_textgrid"):
         yield {"op": "emit", "tg": c["tg"], "fmt": fmt, "blanks": c["blanks"], "min": c.get("min"), "max": c.get("max"), "minlen": 1e-8}
         r = ioops.save_text(c["tg"], fmt, c["blanks"], c.get("min"), c.get("max"), via_file=False)
